@@ -103,7 +103,7 @@ package hash
 //@ func New
 //@   summary hstate(result) == fold(initialData, h_init(), acc, x, hw(acc, habs(x)))
 //@ func (*Hash).WriteAny
-//@   modifies hstate(hash)
+//@   modifies hstate(hash), wlog(hash.h)
 //@   summary result == nil ==> hstate(hash) == fold(data, old(hstate(hash)), acc, x, hw(acc, habs(x)))
 //@   summary (result != nil && len(data) == 1) ==> hstate(hash) == old(hstate(hash))
 // items whose encoders cannot fail (declared per type by axioms next to the types: curve points and scalars, ...)
